@@ -3,7 +3,7 @@ CONSTANTS
   Clients = {"eth", "bsc"}
   Kinds = {"commit", "ack"}
   AccountCls = {"ok", "otheraccount", "otheraddr", "otherroot", "absent", "truncated", "padded", "wrongnonce", "wrongbalance", "wrongstorage", "forgedstorage", "wrongcode", "empty"}
-  StorageCls = {"ok", "otherslot", "othervalue", "absentkey", "truncated", "padded", "zeroproofs", "twoproofs", "keymismatch"}
+  StorageCls = {"ok", "otherslot", "othervalue", "absentkey", "truncated", "padded", "zeroproofs", "twoproofs", "keymismatch", "suffixkey"}
   HeightCls = {"ok", "unknown", "abovehead", "abovestored", "withindelay"}
   PathCls = {"ok", "otherseq", "otherkind", "otherchain"}
   ValueCls = {"ordinary", "leadzero1", "leadzero3"}
